@@ -14326,14 +14326,15 @@ func (p *parser) visitExprInOut(expr js_ast.Expr, in exprIn) (js_ast.Expr, exprO
 		if e.TagOrNil.Data != nil {
 			// Capture the value for "this" if the tag is a lowered optional chain.
 			// We'll need to manually apply this value later to preserve semantics.
+			// (The chain is also lowered when optional chaining is supported but it
+			// contains a private name that must be lowered. If the chain ends up not
+			// being lowered, no "this" value is returned and nothing changes.)
 			tagIsLoweredOptionalChain := false
-			if p.options.unsupportedJSFeatures.Has(compat.OptionalChain) {
-				switch target := e.TagOrNil.Data.(type) {
-				case *js_ast.EDot:
-					tagIsLoweredOptionalChain = target.OptionalChain != js_ast.OptionalChainNone
-				case *js_ast.EIndex:
-					tagIsLoweredOptionalChain = target.OptionalChain != js_ast.OptionalChainNone
-				}
+			switch target := e.TagOrNil.Data.(type) {
+			case *js_ast.EDot:
+				tagIsLoweredOptionalChain = target.OptionalChain != js_ast.OptionalChainNone
+			case *js_ast.EIndex:
+				tagIsLoweredOptionalChain = target.OptionalChain != js_ast.OptionalChainNone
 			}
 
 			p.templateTag = e.TagOrNil.Data
